@@ -113,6 +113,12 @@ CHECKS = [
         "text": "For every conversion graph (single, catch_value_error, lazy; two deserializers in both orders, chain, generic, inherited / non-inherited serializer, annotated class, identity bypass) x placement (registered, dynamic, Annotated, field metadata, default_conversion) x source type (int, str, List[int], dataclass) x 9 contexts x every datum of the source pool: deserialize(C[K], d) == map_C(f, deserialize(C[S], d)) with identical rejections and errors, serialize(C[K], v) == serialize(C[U], g(v)), both schemas equal those of the source / target type (plus the class's own schema()/type_name), dynamic conversions must not reach into object fields, identity gives the unconverted behaviour.",
         "note": "The implementation on the source/target type is the reference (C01/C04 check it). Schemas under a per-call default_conversion are compared modulo the `default` annotation.",
     },
+    {
+        "id": "C19", "engine": "E1", "design_ref": "DESIGN.md §5 C19",
+        "technique": "bounded exhaustive enumeration of the GraphQL-compatible fragment of the type grammar x values x argument data + source worlds, with graphql-core (validation, execution, input coercion), a type-expression prediction model and the real serialize / deserialize as oracles",
+        "text": "For every object type of the GraphQL-compatible fragment: graphql_schema must build, pass assert_valid_schema and print_schema; every output and input field must have the predicted name and type expression (list / non-null wrapping, Input suffix, named scalars and enums); the full-selection query on every model-built value must equal the reference image (enums by name, omitted fields null); for every datum at <=1 deviation the resolver is invoked iff deserialize accepts the (graphql-core coerced) datum, with an equal value, else a GraphQL error and no call. Worlds: 10 argument signatures (required, default, None, unserialisable, list and object defaults, Undefined, enum default, constrained), interfaces, unions of objects, id_types with and without id_encoding (literal and variable), error handler, aliaser / enum_aliaser.",
+        "note": "Types with Enum members are exempt from the argument check (GraphQL enum inputs are by name), fall_back_on_default shapes too. Known finding: Enum-typed defaults are stored by value.",
+    },
 ]
 _PENDING = "check not built yet in this round (planned, see DESIGN.md §5); not claimed until it runs green"
-NOT_APPLICABLE = [{"property_id": f"C{i:02d}", "reason": _PENDING} for i in range(4, 20) if i not in (4, 5, 6, 7, 8, 9, 10, 11, 12, 13, 14, 15, 16, 17, 18)]
+NOT_APPLICABLE = [{"property_id": f"C{i:02d}", "reason": _PENDING} for i in range(4, 20) if i not in range(1, 21)]
